@@ -490,6 +490,33 @@ func muxRun(t *testing.T, wl any, sc SchedCfg) *Result {
 				}
 			}
 		}
+		// after a failure detected by one end itself (queue overflow, partial trunk write) the readers of
+		// that end must see the failure, not a clean end-of-file ("end-of-file after an orderly close")
+		// (only for an overflow: there the failing end's single demultiplexer latches the error before it
+		// wakes anybody; after a partial write the peer's reaction can legitimately reach the error
+		// latch first, so nothing is asserted about the kind of error there)
+		if len(w.Faults) == 1 && w.Faults[0].Kind == "overflow" && failed {
+			f := w.Faults[0]
+			detecting := 1 - f.End // overflow: the end that reads the flooded stream
+			if f.Kind == "partial-write" {
+				detecting = f.End
+				if e.S.Net.PartialWrites == 0 {
+					detecting = -1 // the failing write wrote nothing: a plain EPIPE, the mux stays up until the peer closes
+				}
+			}
+			for _, st := range w.Streams {
+				sd := sides[key(st.ID, st.Dir)]
+				if 1-st.Dir == detecting && sd.rerr == io.EOF {
+					all := ""
+					for _, s2 := range w.Streams {
+						x := sides[key(s2.ID, s2.Dir)]
+						all += fmt.Sprintf(" [%d/%d r=%v w=%v]", s2.ID, s2.Dir, x.rerr, x.werr)
+					}
+					res.Violate("C11.error-kind", "connection %d direction %d: end %d of the mux failed (%s) but a Read on it reported a clean end-of-file instead of the failure; partial writes %d; all streams:%s", st.ID, st.Dir, detecting, f.Kind, e.S.Net.PartialWrites, all)
+				}
+			}
+			res.Probe("C11.error-kind-checked")
+		}
 		// phase 2: orderly close of one end by several concurrent closers, then of the other
 		first, second := 0, 1
 		if w.CloseB {
